@@ -97,14 +97,19 @@ CLAIMED = {
    design="§5 C02"),
  "C07": dict(
    text="Lean theorems (Echse.Props.C07) about the transcribed model of the zone table search, the range cache, the "
-        "local->UTC fixed point and echs_instant_utc/loc, for EVERY strictly increasing transition table (not per "
-        "zone): the search terminates and finds the enclosing range, the cache is transparent, UTC->local->UTC is the "
-        "identity and local->UTC inverts it for unambiguous wall-clock times. The model is fed the v1 table of each "
-        "installed zone (independent Python reader) and compared with the C code on conversions at both sides of "
-        "transitions in evolving cache states; glibc with TZ=<zone> judges the implementation's answers directly.",
+        "local->UTC conversion (first guess, the stretch found and its two neighbours) and echs_instant_utc/loc, for EVERY "
+        "strictly increasing transition table (not per zone): the search terminates and finds the enclosing range, the "
+        "cache is transparent and the answer independent of it, UTC->local->UTC is the identity, local->UTC returns the "
+        "EARLIEST instant that shows the wall clock (utc_of_local_first; with a decidable spacing condition on the table, "
+        "the earliest of all) and for a wall clock inside a gap - proved to have no preimage - the value read with the "
+        "offset before the gap (utc_of_local_gap), as RFC 5545 3.3.5 asks; Berlin/New York witnesses by decide. The model "
+        "is fed the v1 table of each installed zone (independent Python reader) and compared with the C code on conversions "
+        "at both sides of transitions and inside every gap and overlap in evolving cache states; glibc with TZ=<zone> and an "
+        "RFC oracle over the table's preimages judge the implementation's answers directly.",
    note="Trusted: Lean kernel; harness hx_cal.c; TZif parsing (__conv_zif) and the tzob interning/MFU cache are not "
-        "modelled (exercised only); glibc as oracle; occurrence-level correction in refill() belongs to C01/C16's harness.",
-   technique="Lean 4 proof (induction on the bisection, case analysis of the two-step fixed point) + differential correspondence check against all installed zones",
+        "modelled (exercised only); glibc as oracle; occurrence-level correction in refill() belongs to C01/C16's harness. "
+        "Known: D147 (64th zone), D190 (behind 2037).",
+   technique="Lean 4 proof (induction on the bisection, case analysis over the three candidate stretches) + differential correspondence check against all installed zones",
    design="§5 C07"),
  "C04": dict(
    text="Lean theorems (Echse.Props.C04) about the transcribed model of echsd's scheduling core (resched/unwind_till, one event-loop "
